@@ -69,11 +69,15 @@ theorem applyStates_final (rt : List (Nat × RTask)) (a b : List Nat) :
     intro i _
     simp only [Function.comp_def, stateOf]
     cases alGet rt i with
-    | none => rfl
-    | some ti => by_cases hc : ti.state.isCompleted = true <;> simp [hc]
+    | none => simp [TState.isWaiting]
+    | some ti =>
+      by_cases hc : ti.state.isCompleted = true
+      · simp only [hc, if_true]
+        split <;> rfl
+      · simp [hc, TState.isWaiting]
   · apply List.map_congr_left
     intro i _
-    simp only [Function.comp_def, stateOf]
+    simp only [Function.comp_def, stateOf, TState.isWaiting, if_true]
     cases alGet rt i with
     | none => rfl
     | some ti => by_cases hc : ti.state.isCompleted = true <;> simp [hc]
@@ -156,14 +160,19 @@ theorem finalTasks_get (rt : List (Nat × RTask)) (ids : List Nat) (i : Nat) :
   simp only [finalTasks, alGet_mapKey]
   by_cases h : i ∈ ids <;> simp [h]
 
+/-- the job tasks one pass of the loop looks at: the tasks of this submit (all still `Waiting` in the job table) and
+the earlier ones that restore left `Waiting` -/
+def passTasks (rt : List (Nat × RTask)) (pre : List Nat) (d : TaskDesc) : List (Nat × TState) :=
+  stillWaiting (finalTasks rt pre ++ d.ids.map (·, .waiting))
+
 /-- one iteration of `for submit in self.submit_descs`, explicitly -/
 theorem restoreSubmit_ok (job : Nat) (rt : List (Nat × RTask)) (pre : List Nat) (c : JCounters) (bs : List Batch)
     (n : Nat) (d : TaskDesc) (h : submitOk pre d = true) :
     restoreSubmit job rt ⟨finalTasks rt pre, c, bs, n⟩ d =
       .ok ⟨finalTasks rt (pre ++ d.ids),
-           bumpCounters rt (finalTasks rt pre ++ d.ids.map (·, .waiting)) c,
+           bumpCounters rt (passTasks rt pre d) c,
            if (retainTasks rt d.tasks).isEmpty then bs
-           else bs ++ [⟨job, retainTasks rt d.tasks, adjustOf rt (finalTasks rt pre ++ d.ids.map (·, .waiting))⟩],
+           else bs ++ [⟨job, retainTasks rt d.tasks, adjustOf rt (passTasks rt pre d)⟩],
            n + 1⟩ := by
   have hv := validate_ok h (finalTasks rt pre) (finalTasks_get rt pre)
   have hfresh := submitOk_fresh h
@@ -174,43 +183,203 @@ theorem restoreSubmit_ok (job : Nat) (rt : List (Nat × RTask)) (pre : List Nat)
     cases hg : alGet (finalTasks rt pre) i with
     | none => rfl
     | some _ => simp [hg] at this) (submitOk_nodup h)
-  simp only [restoreSubmit, hv, ha, applyStates_final]
+  simp only [restoreSubmit, hv, ha, applyStates_final, passTasks]
 
-/-- the batches a list of submits produces, flattened -/
+/-- what `handle_new_tasks` makes of the restorer entry of a task: (instance id, crash counter) -/
+def effOf (rt : List (Nat × RTask)) (t : Nat) : Nat × Nat :=
+  match alGet rt t with
+  | some ti => ((match ti.inst with | some x => x + 1 | none => 0), ti.crash)
+  | none => (0, 0)
+
+def adjCond (rt : List (Nat × RTask)) (t : Nat) : Bool :=
+  match alGet rt t with
+  | some ti => ti.crash > 0 || ti.inst.isSome
+  | none => false
+
+theorem adjustOf_none (rt : List (Nat × RTask)) (t : Nat) (hc : adjCond rt t = false) :
+    ∀ L : List (Nat × TState), alGet (adjustOf rt L) t = none := by
+  intro L
+  induction L with
+  | nil => rfl
+  | cons jt L ih =>
+    obtain ⟨k, st⟩ := jt
+    simp only [adjustOf, List.filterMap_cons] at ih ⊢
+    cases hg : alGet rt k with
+    | none => simpa [hg] using ih
+    | some ti =>
+      simp only [hg]
+      by_cases hcond : (ti.crash > 0 || ti.inst.isSome) = true
+      · simp only [hcond, if_true]
+        have hkt : k ≠ t := by
+          intro e; subst e
+          simp [adjCond, hg] at hc
+          simp [hc] at hcond
+        simp only [alGet, hkt, if_false]
+        exact ih
+      · simp only [hcond, Bool.false_eq_true, if_false]
+        exact ih
+
+theorem adjustOf_some (rt : List (Nat × RTask)) (t : Nat) (hc : adjCond rt t = true) :
+    ∀ L : List (Nat × TState), t ∈ L.map (·.1) → alGet (adjustOf rt L) t = some (effOf rt t) := by
+  intro L
+  induction L with
+  | nil => intro h; simp at h
+  | cons jt L ih =>
+    obtain ⟨k, st⟩ := jt
+    intro hmem
+    simp only [adjustOf, List.filterMap_cons] at ih ⊢
+    by_cases hkt : k = t
+    · subst hkt
+      cases hg : alGet rt k with
+      | none => simp [adjCond, hg] at hc
+      | some ti =>
+        have hcond : (ti.crash > 0 || ti.inst.isSome) = true := by simpa [adjCond, hg] using hc
+        simp only [hg, hcond, if_true, alGet, effOf]
+        rfl
+    · have hmem' : t ∈ L.map (·.1) := by
+        simp only [List.map_cons, List.mem_cons] at hmem
+        rcases hmem with e | hmem
+        · exact absurd e.symm hkt
+        · exact hmem
+      cases hg : alGet rt k with
+      | none => simpa [hg] using ih hmem'
+      | some ti =>
+        simp only [hg]
+        by_cases hcond : (ti.crash > 0 || ti.inst.isSome) = true
+        · simp only [hcond, if_true, alGet, hkt, if_false]; exact ih hmem'
+        · simp only [hcond, Bool.false_eq_true, if_false]; exact ih hmem'
+
+/-- the adjust map gives a task of the pass exactly `effOf` -/
+theorem adjusted_eq (rt : List (Nat × RTask)) (L : List (Nat × TState)) (t : Nat) (hmem : t ∈ L.map (·.1)) :
+    (match alGet (adjustOf rt L) t with | some ic => ic | none => (0, 0)) = effOf rt t := by
+  by_cases hc : adjCond rt t = true
+  · rw [adjustOf_some rt t hc L hmem]
+  · have hc' : adjCond rt t = false := by simpa using hc
+    rw [adjustOf_none rt t hc' L]
+    unfold effOf
+    unfold adjCond at hc'
+    cases hg : alGet rt t with
+    | none => rfl
+    | some ti =>
+      simp only [hg, Bool.or_eq_false_iff, decide_eq_false_iff_not, Nat.not_lt, Nat.le_zero_eq] at hc'
+      cases hi : ti.inst with
+      | none => simp [hc'.1, hi]
+      | some x => simp [hi] at hc'
+
+theorem desc_tasks_ids (d : TaskDesc) : ∀ t ∈ d.tasks, t.1 ∈ d.ids := by
+  intro t ht
+  cases d with
+  | array ids e =>
+    cases e with
+    | none =>
+      simp only [TaskDesc.tasks, List.mem_map] at ht
+      obtain ⟨i, hi, rfl⟩ := ht
+      simpa [TaskDesc.ids] using hi
+    | some n =>
+      simp only [TaskDesc.tasks, List.mem_map] at ht
+      obtain ⟨i, hi, rfl⟩ := ht
+      simpa [TaskDesc.ids] using List.mem_of_mem_take hi
+  | graph ts =>
+    simp only [TaskDesc.tasks, List.mem_map] at ht
+    obtain ⟨g, hg, rfl⟩ := ht
+    simp only [TaskDesc.ids, List.mem_map]
+    exact ⟨g, hg, rfl⟩
+
+theorem passTasks_mem (rt : List (Nat × RTask)) (pre : List Nat) (d : TaskDesc) (i : Nat) (hi : i ∈ d.ids) :
+    i ∈ (passTasks rt pre d).map (·.1) := by
+  simp only [passTasks, stillWaiting, List.mem_map, List.mem_filter, List.mem_append]
+  exact ⟨(i, .waiting), ⟨Or.inr ⟨i, hi, rfl⟩, rfl⟩, rfl⟩
+
+/-- the counts one pass adds: only the tasks of this submit can have a completed restorer state -/
+theorem pass_count (rt : List (Nat × RTask)) (pre : List Nat) (d : TaskDesc) (o : Outcome) (ho : o ≠ .waiting) :
+    countOutcome rt (passTasks rt pre d) o = countOutcome rt (d.ids.map (·, TState.waiting)) o := by
+  have h1 : stillWaiting (d.ids.map (·, TState.waiting)) = d.ids.map (·, TState.waiting) := by
+    simp only [stillWaiting, List.filter_eq_self, List.mem_map]
+    rintro _ ⟨i, _, rfl⟩; rfl
+  have h2 : countOutcome rt (stillWaiting (finalTasks rt pre)) o = 0 := by
+    simp only [countOutcome, stillWaiting, List.filter_filter, List.length_eq_zero_iff, List.filter_eq_nil_iff,
+      finalTasks, List.mem_map]
+    rintro _ ⟨i, _, rfl⟩
+    simp only [stateOf, Bool.and_eq_true, not_and]
+    cases hg : alGet rt i with
+    | none => simp
+    | some ti =>
+      obtain ⟨st, ii, cc⟩ := ti
+      cases st <;> simp_all [TState.isCompleted, TState.isWaiting, TState.outcome] <;> cases o <;> simp_all
+  simp only [passTasks, stillWaiting, List.filter_append] at h2 ⊢
+  simp only [stillWaiting] at h1
+  rw [h1]
+  simp only [countOutcome, List.filter_append, List.length_append] at h2 ⊢
+  omega
+
+/-- add the counts of the completed tasks among `ids` -/
+def addCounts (rt : List (Nat × RTask)) (ids : List Nat) (c : JCounters) : JCounters :=
+  { c with
+    finished := c.finished + countOutcome rt (ids.map (·, TState.waiting)) .finished
+    failed := c.failed + countOutcome rt (ids.map (·, TState.waiting)) .failed
+    canceled := c.canceled + countOutcome rt (ids.map (·, TState.waiting)) .canceled
+    aborted := c.aborted + countOutcome rt (ids.map (·, TState.waiting)) .aborted }
+
+theorem countOutcome_append (rt : List (Nat × RTask)) (a b : List (Nat × TState)) (o : Outcome) :
+    countOutcome rt (a ++ b) o = countOutcome rt a o + countOutcome rt b o := by
+  simp [countOutcome, List.filter_append]
+
+theorem addCounts_append (rt : List (Nat × RTask)) (a b : List Nat) (c : JCounters) :
+    addCounts rt (a ++ b) c = addCounts rt b (addCounts rt a c) := by
+  simp only [addCounts, List.map_append, countOutcome_append, Nat.add_assoc]
+
+theorem bump_pass (rt : List (Nat × RTask)) (pre : List Nat) (d : TaskDesc) (c : JCounters) :
+    bumpCounters rt (passTasks rt pre d) c = addCounts rt d.ids c := by
+  simp only [bumpCounters, addCounts, pass_count rt pre d _ (by decide : Outcome.finished ≠ .waiting),
+    pass_count rt pre d _ (by decide : Outcome.failed ≠ .waiting),
+    pass_count rt pre d _ (by decide : Outcome.canceled ≠ .waiting),
+    pass_count rt pre d _ (by decide : Outcome.aborted ≠ .waiting)]
+
+/-- the batches a list of submits produces, flattened; the counters; the adjust entries -/
 theorem restoreSubmits_ok (job : Nat) (rt : List (Nat × RTask)) :
     ∀ (ds : List TaskDesc) (pre : List Nat) (c : JCounters) (bs : List Batch) (n : Nat),
       submitsOk pre ds = true →
-      ∃ c' nb, restoreSubmits job rt ⟨finalTasks rt pre, c, bs, n⟩ ds =
-          .ok ⟨finalTasks rt (pre ++ ds.flatMap (·.ids)), c', bs ++ nb, n + ds.length⟩ ∧
-        nb.flatMap (·.tasks) = retainTasks rt (ds.flatMap (·.tasks)) ∧ (∀ b ∈ nb, b.job = job) := by
+      ∃ nb, restoreSubmits job rt ⟨finalTasks rt pre, c, bs, n⟩ ds =
+          .ok ⟨finalTasks rt (pre ++ ds.flatMap (·.ids)), addCounts rt (ds.flatMap (·.ids)) c, bs ++ nb,
+            n + ds.length⟩ ∧
+        nb.flatMap (·.tasks) = retainTasks rt (ds.flatMap (·.tasks)) ∧ (∀ b ∈ nb, b.job = job) ∧
+        (∀ b ∈ nb, ∀ t ∈ b.tasks, b.adjusted t.1 = effOf rt t.1) := by
   intro ds
   induction ds with
   | nil =>
     intro pre c bs n _
-    exact ⟨c, [], by simp [restoreSubmits], by simp [retainTasks], by simp⟩
+    exact ⟨[], by simp [restoreSubmits, addCounts, countOutcome], by simp [retainTasks], by simp, by simp⟩
   | cons d ds ih =>
     intro pre c bs n h
     simp only [submitsOk, Bool.and_eq_true] at h
-    simp only [restoreSubmits, restoreSubmit_ok job rt pre c bs n d h.1]
-    obtain ⟨c', nb, h1, h2, h3⟩ := ih (pre ++ d.ids) (bumpCounters rt (finalTasks rt pre ++ d.ids.map (·, .waiting)) c)
+    simp only [restoreSubmits, restoreSubmit_ok job rt pre c bs n d h.1, bump_pass]
+    obtain ⟨nb, h1, h2, h3, h4⟩ := ih (pre ++ d.ids) (addCounts rt d.ids c)
       (if (retainTasks rt d.tasks).isEmpty then bs
-       else bs ++ [⟨job, retainTasks rt d.tasks, adjustOf rt (finalTasks rt pre ++ d.ids.map (·, .waiting))⟩])
+       else bs ++ [⟨job, retainTasks rt d.tasks, adjustOf rt (passTasks rt pre d)⟩])
       (n + 1) h.2
     by_cases he : (retainTasks rt d.tasks).isEmpty = true
-    · refine ⟨c', nb, ?_, ?_, h3⟩
-      · rw [h1]; simp [he, List.append_assoc, Nat.add_assoc, Nat.add_comm 1]
+    · refine ⟨nb, ?_, ?_, h3, h4⟩
+      · rw [h1]; simp [he, List.append_assoc, Nat.add_assoc, Nat.add_comm 1, addCounts_append]
       · have he' : retainTasks rt d.tasks = [] := by simpa using he
         simp only [retainTasks, List.flatMap_cons, List.filter_append, List.map_append] at *
         rw [h2, he']; simp
-    · refine ⟨c', ⟨job, retainTasks rt d.tasks, adjustOf rt (finalTasks rt pre ++ d.ids.map (·, .waiting))⟩ :: nb, ?_, ?_, ?_⟩
-      · rw [h1]; simp [he, List.append_assoc, Nat.add_assoc, Nat.add_comm 1]
+    · refine ⟨⟨job, retainTasks rt d.tasks, adjustOf rt (passTasks rt pre d)⟩ :: nb, ?_, ?_, ?_, ?_⟩
+      · rw [h1]; simp [he, List.append_assoc, Nat.add_assoc, Nat.add_comm 1, addCounts_append]
       · simp only [retainTasks, List.flatMap_cons, List.filter_append, List.map_append] at *
         rw [h2]
       · intro b hb
         rcases List.mem_cons.1 hb with rfl | hb
         · rfl
         · exact h3 b hb
-
+      · intro b hb t ht
+        rcases List.mem_cons.1 hb with rfl | hb
+        · simp only [Batch.adjusted]
+          apply adjusted_eq
+          apply passTasks_mem
+          simp only [retainTasks, List.mem_map, List.mem_filter] at ht
+          obtain ⟨t0, ⟨ht0, _⟩, rfl⟩ := ht
+          exact desc_tasks_ids d t0 ht0
+        · exact h4 b hb t ht
 
 theorem isTaskCompleted_eq (rt : List (Nat × RTask)) (t : Nat) :
     isTaskCompleted rt t = (outcomeOpt (alGet rt t) != .waiting) := by
@@ -304,185 +473,92 @@ theorem JobRel.count_eq {rj : RJob} {aj : AJob} (h : JobRel rj aj) (o : Outcome)
   | none => cases o <;> simp_all
   | some ti => rfl
 
+/-- what restore hands to the core for a pending task = what the journal recorded -/
+theorem eff_eq {conn : List Nat} {mw : Nat} {rj : RJob} {aj : AJob} (h : JobRel rj aj) (hc : CrashRel conn mw rj aj)
+    (a : ATask) (ha : a ∈ aj.tasks) :
+    effOf rj.tasks a.id = ((match a.inst with | some i => i + 1 | none => 0), a.crashes) := by
+  have h1 := h.inst a ha
+  have h2 := hc.crash a ha
+  unfold effOf
+  cases hg : alGet rj.tasks a.id with
+  | none => rw [hg] at h1 h2; simp [h1, h2]
+  | some ti => rw [hg] at h1 h2; simp only [Option.bind_some, Option.map_some, Option.getD_some] at h1 h2; rw [h1, h2]
+
 /-- `restore_job` for a job related to its abstract counterpart -/
-theorem restoreJob_ok (id : Nat) {rj : RJob} {aj : AJob} (h : JobRel rj aj) :
-    ∃ rjob bs, restoreJob id rj = .ok (rjob, bs) ∧
-      rjob.id = id ∧ rjob.isOpen = aj.isOpen ∧ rjob.maxFails = aj.maxFails ∧ rjob.nSubmits = aj.nSubmits ∧
-      rjob.tasks.map (fun t => (t.1, t.2.outcome)) = aj.tasks.map (fun a => (a.id, a.st)) ∧
-      bs.flatMap (·.tasks) = aj.pending.map (fun p => (p.task, p.deps)) ∧ (∀ b ∈ bs, b.job = id) ∧
-      (aj.nSubmits ≤ 1 → rjob.counters =
-        ⟨0, aj.count .finished, aj.count .failed, aj.count .canceled, aj.count .aborted⟩) := by
-  obtain ⟨c', nb, h1, h2, h3⟩ := restoreSubmits_ok id rj.tasks rj.submits [] {} [] 0 h.valid
+theorem restoreJob_ok (id : Nat) {conn : List Nat} {mw : Nat} {rj : RJob} {aj : AJob} (h : JobRel rj aj)
+    (hc : CrashRel conn mw rj aj) :
+    ∃ rjob bs, restoreJob id rj = .ok (rjob, bs) ∧ rjob.view = aj.view id ∧
+      batchPending bs = aj.pending.map (fun p => (id, p.task, p.deps, p.inst, p.crashes)) := by
+  obtain ⟨nb, h1, h2, h3, h4⟩ := restoreSubmits_ok id rj.tasks rj.submits [] {} [] 0 h.valid
   have h1' : restoreSubmits id rj.tasks {} rj.submits =
-      .ok ⟨finalTasks rj.tasks (rj.submits.flatMap (·.ids)), c', nb, rj.submits.length⟩ := by
+      .ok ⟨finalTasks rj.tasks (rj.submits.flatMap (·.ids)), addCounts rj.tasks (rj.submits.flatMap (·.ids)) {}, nb,
+        rj.submits.length⟩ := by
     simpa [finalTasks] using h1
-  refine ⟨⟨id, rj.isOpen, rj.maxFails, finalTasks rj.tasks (rj.submits.flatMap (·.ids)), c', rj.submits.length⟩, nb,
-    by simp only [restoreJob, h1'], rfl, h.isOpen, h.maxFails, h.nSubmits.symm, ?_, ?_, h3, ?_⟩
-  · simp only [finalTasks, List.map_map, Function.comp_def, stateOf_outcome, ← h.ids]
+  refine ⟨⟨id, rj.isOpen, rj.maxFails, finalTasks rj.tasks (rj.submits.flatMap (·.ids)),
+    addCounts rj.tasks (rj.submits.flatMap (·.ids)) {}, rj.submits.length⟩, nb,
+    by simp only [restoreJob, h1'], ?_, ?_⟩
+  · simp only [RestoredJob.view, AJob.view, h.isOpen, h.maxFails, h.nSubmits, Prod.mk.injEq, true_and]
+    refine ⟨?_, ?_⟩
+    · simp only [finalTasks, List.map_map, Function.comp_def, stateOf_outcome, ← h.ids]
+      apply List.map_congr_left
+      intro a ha
+      rw [h.outcome a ha]
+    · simp only [addCounts, AJob.counters, ← h.ids, h.count_eq _ (by decide : Outcome.finished ≠ .waiting),
+        h.count_eq _ (by decide : Outcome.failed ≠ .waiting), h.count_eq _ (by decide : Outcome.canceled ≠ .waiting),
+        h.count_eq _ (by decide : Outcome.aborted ≠ .waiting), Nat.zero_add]
+  · -- every batch belongs to the job and carries `effOf` for its tasks
+    have hb : batchPending nb = (nb.flatMap (·.tasks)).map fun t => (id, t.1, t.2, (effOf rj.tasks t.1).1,
+        (effOf rj.tasks t.1).2) := by
+      clear h1 h1' h2
+      induction nb with
+      | nil => rfl
+      | cons b bs ih =>
+        have hj := h3 b (List.mem_cons_self)
+        have ha := h4 b (List.mem_cons_self)
+        have := ih (fun b' hb' => h3 b' (List.mem_cons_of_mem _ hb')) (fun b' hb' => h4 b' (List.mem_cons_of_mem _ hb'))
+        simp only [batchPending, List.flatMap_cons, List.map_append] at this ⊢
+        rw [this, hj]
+        congr 1
+        apply List.map_congr_left
+        intro t ht
+        rw [ha t ht]
+    rw [hb, h2, submitsOk_tasks _ _ h.valid, ← h.tasks]
+    -- retained tasks = pending tasks, with the same remaining deps, and `effOf` = recorded instance / crashes
+    have hp := h.pending_eq
+    simp only [retainTasks, AJob.pending, List.filter_map, List.map_map] at hp ⊢
+    have hf : aj.tasks.filter ((fun t : Nat × List Nat => !isTaskCompleted rj.tasks t.1) ∘ pairOf) =
+        aj.tasks.filter (·.st == .waiting) := by
+      apply List.filter_congr
+      intro a ha
+      simp only [Function.comp_def, pairOf, isTaskCompleted_eq, h.outcome a ha]
+      cases outcomeOpt (alGet rj.tasks a.id) <;> rfl
+    rw [hf]
     apply List.map_congr_left
     intro a ha
-    rw [h.outcome a ha]
-  · rw [h2, submitsOk_tasks _ _ h.valid, ← h.tasks, h.pending_eq]
-  · intro hle
-    rw [h.nSubmits] at hle
-    simp only
-    cases hs : rj.submits with
-    | nil =>
-      have ht : aj.tasks = [] := by
-        have := h.tasks; rw [hs] at this; simpa using this
-      rw [hs] at h1'
-      simp only [restoreSubmits] at h1'
-      cases h1'
-      simp [AJob.count, ht]
-    | cons d ds =>
-      cases ds with
-      | cons d2 ds2 => rw [hs] at hle; simp at hle
-      | nil =>
-        have hv := h.valid
-        rw [hs] at h1' hv
-        simp only [submitsOk, Bool.and_eq_true] at hv
-        have hone := restoreSubmit_ok id rj.tasks [] {} [] 0 d hv.1
-        have hfin : finalTasks rj.tasks [] = [] := rfl
-        rw [hfin] at hone
-        simp only [restoreSubmits] at h1'
-        have hJ : ({} : JobAcc) = ⟨[], {}, [], 0⟩ := rfl
-        rw [hJ, hone] at h1'
-        simp only [Except.ok.injEq, JobAcc.mk.injEq] at h1'
-        rw [← h1'.2.1]
-        have hids : aj.tasks.map (·.id) = d.ids := by rw [h.ids, hs]; simp
-        simp only [bumpCounters, List.nil_append, ← hids, Nat.zero_add]
-        rw [h.count_eq .finished (by decide), h.count_eq .failed (by decide), h.count_eq .canceled (by decide),
-          h.count_eq .aborted (by decide)]
+    have ha' : a ∈ aj.tasks := (List.mem_filter.1 ha).1
+    simp only [Function.comp_def, pairOf, eff_eq h hc a ha', Prod.mk.injEq, true_and, and_true]
+    refine ⟨?_, rfl⟩
+    apply List.filter_congr
+    intro d _
+    rw [h.isTerminal_eq]
 
-
-theorem batchPending_of_job {bs : List Batch} {id : Nat} (h : ∀ b ∈ bs, b.job = id) :
-    batchPending bs = (bs.flatMap (·.tasks)).map fun t => (id, t.1, t.2) := by
-  induction bs with
-  | nil => rfl
-  | cons b bs ih =>
-    have hb := h b (List.mem_cons_self)
-    have := ih (fun b' hb' => h b' (List.mem_cons_of_mem _ hb'))
-    simp only [batchPending, List.flatMap_cons, List.map_append] at *
-    rw [this, hb]
-
-theorem restoreJobsFrom_ok {rjobs : List (Nat × RJob)} {ajobs : List (Nat × AJob)} (h : AlRel JobRel rjobs ajobs) :
+theorem restoreJobsFrom_ok {conn : List Nat} {mw : Nat} {rjobs : List (Nat × RJob)} {ajobs : List (Nat × AJob)}
+    (h : AlRel (JR conn mw) rjobs ajobs) :
     ∀ acc : Restored, ∃ js bs, restoreJobsFrom rjobs acc =
         .ok { acc with jobs := acc.jobs ++ js, batches := acc.batches ++ bs } ∧
       js.map RestoredJob.view = ajobs.map (fun ja => ja.2.view ja.1) ∧
-      batchPending bs = ajobs.flatMap (fun ja => ja.2.pending.map fun p => (ja.1, p.task, p.deps)) ∧
-      (∀ j ∈ js, ∃ aj, (j.id, aj) ∈ ajobs ∧ (aj.nSubmits ≤ 1 → j.counters = aj.counters)) := by
+      batchPending bs = ajobs.flatMap (fun ja => ja.2.pending.map fun p => (ja.1, p.task, p.deps, p.inst, p.crashes)) := by
   induction h with
-  | nil => intro acc; exact ⟨[], [], by simp [restoreJobsFrom], rfl, rfl, by simp⟩
+  | nil => intro acc; exact ⟨[], [], by simp [restoreJobsFrom], rfl, rfl⟩
   | @cons k rj aj l m hrel _ ih =>
     intro acc
-    obtain ⟨rjob, bs, h1, h2, h3, h4, h5, h6, h7, h8, h9⟩ := restoreJob_ok k hrel
-    obtain ⟨js, bs', g1, g2, g3, g4⟩ := ih { acc with jobs := acc.jobs ++ [rjob], batches := acc.batches ++ bs }
-    refine ⟨rjob :: js, bs ++ bs', ?_, ?_, ?_, ?_⟩
+    obtain ⟨rjob, bs, h1, h2, h3⟩ := restoreJob_ok k hrel.1 hrel.2
+    obtain ⟨js, bs', g1, g2, g3⟩ := ih { acc with jobs := acc.jobs ++ [rjob], batches := acc.batches ++ bs }
+    refine ⟨rjob :: js, bs ++ bs', ?_, ?_, ?_⟩
     · simp only [restoreJobsFrom, h1, g1]; simp [List.append_assoc]
-    · simp only [List.map_cons, g2]
-      congr 1
-      simp only [RestoredJob.view, AJob.view, h2, h3, h4, h5, h6]
+    · simp only [List.map_cons, g2, h2]
     · have : batchPending (bs ++ bs') = batchPending bs ++ batchPending bs' := by simp [batchPending]
-      rw [this, g3, batchPending_of_job h8, h7]
-      simp [List.map_map, Function.comp_def]
-    · intro j hj
-      rcases List.mem_cons.1 hj with rfl | hj
-      · exact ⟨aj, by rw [h2]; exact List.mem_cons_self, h9⟩
-      · obtain ⟨aj', ha', hc'⟩ := g4 j hj
-        exact ⟨aj', List.mem_cons_of_mem _ ha', hc'⟩
-
-theorem alGet_of_mem_nodup {l : List (Nat × β)} (hn : (l.map (·.1)).Nodup) {k : Nat} {v : β} (h : (k, v) ∈ l) :
-    alGet l k = some v := by
-  induction l with
-  | nil => simp at h
-  | cons a r ih =>
-    obtain ⟨k', w⟩ := a
-    simp only [List.map_cons, List.nodup_cons] at hn
-    rcases List.mem_cons.1 h with e | h
-    · cases e; simp [alGet]
-    · have : k' ≠ k := fun e => hn.1 (e ▸ List.mem_map.2 ⟨(k, v), h, rfl⟩)
-      simp [alGet, this, ih hn.2 h]
-
-theorem alSet_keys_nodup (l : List (Nat × β)) (k : Nat) (v : β) (h : (l.map (·.1)).Nodup) :
-    ((alSet l k v).map (·.1)).Nodup := by
-  induction l with
-  | nil => simp [alSet]
-  | cons a r ih =>
-    obtain ⟨k', w⟩ := a
-    simp only [List.map_cons, List.nodup_cons] at h
-    by_cases hk : k' = k
-    · simp only [alSet, hk, if_true, List.map_cons, List.nodup_cons]
-      exact ⟨hk ▸ h.1, h.2⟩
-    · simp only [alSet, hk, if_false, List.map_cons, List.nodup_cons]
-      refine ⟨?_, ih h.2⟩
-      intro hmem
-      have := (alGet_isSome_iff (alSet r k v) k').2 hmem
-      rw [alGet_set_ne _ _ (fun e => hk e.symm)] at this
-      exact h.1 ((alGet_isSome_iff r k').1 this)
-
-theorem alDel_keys_nodup (l : List (Nat × β)) (k : Nat) (h : (l.map (·.1)).Nodup) :
-    ((alDel l k).map (·.1)).Nodup := by
-  induction l with
-  | nil => simp [alDel]
-  | cons a r ih =>
-    obtain ⟨k', w⟩ := a
-    simp only [List.map_cons, List.nodup_cons] at h
-    by_cases hk : k' = k
-    · simp only [alDel, hk, if_true]; exact ih h.2
-    · simp only [alDel, hk, if_false, List.map_cons, List.nodup_cons]
-      refine ⟨?_, ih h.2⟩
-      intro hmem
-      have := (alGet_isSome_iff (alDel r k) k').2 hmem
-      rw [alGet_del] at this
-      have hne : ¬ k = k' := fun e => hk e.symm
-      simp only [hne, if_false] at this
-      exact h.1 ((alGet_isSome_iff r k').1 this)
-
-theorem alMap_keys (f : β → γ) (l : List (Nat × β)) : (alMap f l).map (·.1) = l.map (·.1) := by
-  simp [alMap, List.map_map, Function.comp_def]
-
-
-theorem updTask_keys (s : AState) (j t : Nat) (f : ATask → ATask) (h : (s.jobs.map (·.1)).Nodup) :
-    ((updTask s j t f).jobs.map (·.1)).Nodup := by
-  unfold updTask
-  split
-  · exact alSet_keys_nodup _ _ _ h
-  · exact h
-
-theorem foldl_setOutcome_keys (o : Outcome) : ∀ (ids : List (Nat × Nat)) (s : AState), (s.jobs.map (·.1)).Nodup →
-    ((ids.foldl (setOutcome o) s).jobs.map (·.1)).Nodup := by
-  intro ids
-  induction ids with
-  | nil => intro s h; exact h
-  | cons id ids ih => intro s h; exact ih _ (updTask_keys s _ _ _ h)
-
-theorem meaningStep_keys (s : AState) (x : Record) (h : (s.jobs.map (·.1)).Nodup) :
-    ((meaningStep s x).jobs.map (·.1)).Nodup := by
-  cases x <;> simp only [meaningStep] <;> try exact h
-  case workerLost w r => rw [alMap_keys]; exact h
-  case submit j c mf d =>
-    split
-    · exact alSet_keys_nodup _ _ _ h
-    · split
-      · exact alSet_keys_nodup _ _ _ h
-      · exact h
-  case jobOpen j mf => exact alSet_keys_nodup _ _ _ h
-  case jobClose j =>
-    split
-    · exact alSet_keys_nodup _ _ _ h
-    · exact h
-  case jobCompleted j => exact alDel_keys_nodup _ _ h
-  case taskStarted j t i ws => exact updTask_keys _ _ _ _ h
-  case taskFinished j t => exact updTask_keys _ _ _ _ h
-  case taskFailed j t => exact updTask_keys _ _ _ _ h
-  case tasksCanceled ids => exact foldl_setOutcome_keys _ ids s h
-  case tasksAborted ids => exact foldl_setOutcome_keys _ ids s h
-
-theorem meaning_keys : ∀ (J : List Record) (s : AState), (s.jobs.map (·.1)).Nodup →
-    ((J.foldl meaningStep s).jobs.map (·.1)).Nodup := by
-  intro J
-  induction J with
-  | nil => intro s h; exact h
-  | cons x xs ih => intro s h; exact ih _ (meaningStep_keys s x h)
+      rw [this, g3, h3]
+      simp
 
 end HqModel.Journal
